@@ -1462,12 +1462,29 @@ fn c12_count_overflow_rolls_back() {
 // Kani cannot translate - inline assembly)
 // --------------------------------------------------------------------------
 
+// Stubs S9a-c: the three signing entry points are replaced by functions that
+// fail the harness if they are ever called.  With TsigMode::Unsigned they are
+// never called; the stubs only stop CBMC from translating the HMAC code
+// behind the (to CBMC, non-constant) `match &tsig.mode` in finish_with_mac.
+fn sign3_never(_rr: &PreparedTsigRr, _message: &[u8], _algorithm: Algorithm, _key: &[u8]) -> (Box<Rdata>, Box<[u8]>) {
+    assert!(false, "[C12] an unsigned TSIG message is never signed");
+    loop {}
+}
+
+fn sign4_never(_rr: &PreparedTsigRr, _message: &[u8], _mac: &[u8], _algorithm: Algorithm, _key: &[u8]) -> (Box<Rdata>, Box<[u8]>) {
+    assert!(false, "[C12] an unsigned TSIG message is never signed");
+    loop {}
+}
+
 // @harness props=C12,C13 tier=quick mem=5 t=1800 kani="--no-assertion-reach-checks" fn="Writer::set_tsig,Writer::update_time_signed,Writer::add_question,Writer::add_answer_rr,Writer::set_limit,Writer::finish,Writer::finish_with_mac,PreparedTsigRr::unsigned_len,PreparedTsigRr::unsigned,Rdata::new_tsig"
-//   bound="buffer 64; set_tsig(Unsigned, key k., algorithm h., any time/fudge/original id/error != BADTIME) ; question x. ; set_limit(any) ; a 15-octet record that can never fit beside the 32-octet TSIG reservation ; update_time_signed(any) ; finish; unwind 8"
-//   sym="case bit, 2x6 time octets, fudge, original id, error, qtype, qclass, limit:usize, probe<64" stubs="S8"
+//   bound="buffer 64; set_tsig(Unsigned, key k., algorithm h., any time/fudge/original id/error != BADTIME) ; question x. ; set_limit(0) and back to 64 ; a 15-octet record that does not fit beside the 32-octet TSIG reservation ; update_time_signed(any) ; finish; unwind 8"
+//   sym="case bit, 2x6 time octets, fudge, original id, error, qtype, qclass, probe<64" stubs="S8,S9(sign_request/sign_response/sign_subsequent replaced by assert(false): never called in Unsigned mode)"
 #[kani::proof]
 #[kani::unwind(8)]
 #[kani::stub(Writer::write, write_model)]
+#[kani::stub(PreparedTsigRr::sign_request, sign3_never)]
+#[kani::stub(PreparedTsigRr::sign_response, sign4_never)]
+#[kani::stub(PreparedTsigRr::sign_subsequent, sign4_never)]
 fn c12_tsig_unsigned() {
     let mut buf = [0u8; 64];
     let probe: usize = kani::any();
@@ -1498,8 +1515,10 @@ fn c12_tsig_unsigned() {
         qclass: qc.into(),
     };
     assert!(add_q(&mut w, &q, probe), "[C12] question fits");
-    w.set_limit(kani::any());
-    assert!(w.limit >= 51 && w.available == w.limit - 32, "[C12] set_limit keeps the TSIG reservation");
+    // lowering the limit as far as it goes keeps the reservation
+    w.set_limit(0);
+    assert!(w.limit == 51 && w.available == 19, "[C12] set_limit keeps written octets and the TSIG reservation");
+    w.set_limit(64);
     let rd: [u8; 4] = kani::any();
     let r = Rec {
         sec: 1,
